@@ -12,7 +12,7 @@ theorem get?_nil (k : String) : get? ([] : AL α) k = none := rfl
 theorem get?_cons (p : String × α) (m : AL α) (k : String) :
     get? (p :: m) k = if p.1 = k then some p.2 else get? m k := by
   unfold get?
-  by_cases h : p.1 = k <;> simp [List.find?_cons, h]
+  by_cases h : p.1 = k <;> simp [h]
 
 theorem has_cons (p : String × α) (m : AL α) (k : String) : has (p :: m) k = (decide (p.1 = k) || has m k) := by
   unfold has; simp only [List.any_cons]; congr 1
